@@ -1315,9 +1315,10 @@ func (m *Model) keyvalue(a *Node, item any, next emitFn, unwrap bool) *merr {
 // datetimes
 
 var (
-	reDate  = regexp.MustCompile(`^\d{4}-\d{2}-\d{2}$`)
-	reTime  = regexp.MustCompile(`^\d{2}:\d{2}:\d{2}(\.\d{1,9})?$`)
-	reTZ    = `(Z|[+-]\d{2}(:\d{2})?)`
+	reDate = regexp.MustCompile(`^\d{4}-\d{2}-\d{2}$`)
+	reTime = regexp.MustCompile(`^\d{2}:\d{2}:\d{2}(\.\d{1,9})?$`)
+	// a zone displacement has hours 00-15 and minutes 00-59 (Go's layouts let 24 and 60 through)
+	reTZ    = `(Z|[+-](0\d|1[0-5])(:[0-5]\d)?)`
 	reTimeZ = regexp.MustCompile(`^\d{2}:\d{2}:\d{2}(\.\d{1,9})?` + reTZ + `$`)
 	reTS    = regexp.MustCompile(`^\d{4}-\d{2}-\d{2}[T ]\d{2}:\d{2}:\d{2}(\.\d{1,9})?$`)
 	reTSZ   = regexp.MustCompile(`^\d{4}-\d{2}-\d{2}[T ]\d{2}:\d{2}:\d{2}(\.\d{1,9})?` + reTZ + `$`)
